@@ -93,7 +93,7 @@ Definition in_domain (c : case) : bool := Z.leb 0 (sum_skips (opts_of c)).
    (for Recover: from the function that called panic), keep the depth *)
 Definition spec_frames (c : case) : list frame :=
   if has_notrace (opts_of c) then []
-  else firstn (Z.to_nat (spec_depth (opts_of c))) (skipn (Z.to_nat (sum_skips (opts_of c))) (user c)).
+  else zfirstn (spec_depth (opts_of c)) (zskipn (sum_skips (opts_of c)) (user c)).
 
 Definition nilb {A} (l : list A) : bool := match l with [] => true | _ => false end.
 
